@@ -374,10 +374,20 @@ InsMap(s, k, v, w0) ==
                                             la |-> s.now, lm |-> s.now, w |-> w, ver |-> 1]],
                     [t |-> "U", k |-> k, i |-> i, ow |-> 0, nw |-> w, n |-> 1]>>
 
+InvRec(s, k) == [t |-> "R", k |-> k, i |-> s.map[k].i, ow |-> 0, nw |-> 0, n |-> 0]
+
+\* F15 (open; repaired design written out): an insert over an entry that is dead at the call
+\* (expired, or written before an invalidate_all) does not revive its EntryInfo: the dead entry is
+\* removed like an invalidation (its removal is queued) and the new value starts a fresh one.
+\* As the code is, the new value shares the dead entry's EntryInfo, whose refreshed timestamps
+\* hide from maintenance that the records still queued for it belong to a dead value.
 Insert(s0, k, v, w0) ==
     LET s == [s0 EXCEPT !.aged = FALSE, !.mx = <<>>]
-        r == InsMap(s, k, v, w0)
-    IN IF r[1].crash # "" THEN r[1] ELSE SendWrite(r[1], r[2], 3)
+        sD == IF "F15" \notin Dev /\ s.map[k].p /\ ~Visible(s, k)
+              THEN SendWrite(MapRemove(s, k), InvRec(s, k), 3) ELSE s
+        r == InsMap(sD, k, v, w0)
+    IN IF sD.crash # "" THEN sD
+       ELSE IF r[1].crash # "" THEN r[1] ELSE SendWrite(r[1], r[2], 3)
 
 \* the foreground part of get: <<read record, result>>
 GetMap(s, k) ==
@@ -393,8 +403,6 @@ Get(s0, k) ==
     IN <<IF Len(s1.rch) < RLog THEN [s1 EXCEPT !.rch = Append(s1.rch, rec)] ELSE s1, res>>
 
 Contains(s, k) == <<[s EXCEPT !.aged = FALSE, !.mx = <<>>], Visible(s, k)>>
-
-InvRec(s, k) == [t |-> "R", k |-> k, i |-> s.map[k].i, ow |-> 0, nw |-> 0, n |-> 0]
 
 Invalidate(s0, k) ==
     LET s == [s0 EXCEPT !.aged = FALSE, !.mx = <<>>]
